@@ -40,8 +40,12 @@ func VetoStatus() *erpc.Status { return erpc.NewStatus(777, "veto-msg", "veto-ca
 
 func (p *plugCore) Name() string { return p.name }
 
+// PlugPause, while 1, makes every recording plugin transparent: preparation steps of a scenario (traffic that sets
+// the scene and is not the exchange under observation) neither show up in the trace nor use up a scripted verdict.
+var PlugPause int32
+
 func (p *plugCore) hit(stage string, seq int32) *erpc.Status {
-	if atomic.LoadInt32(&p.muted) == 1 {
+	if atomic.LoadInt32(&p.muted) == 1 || atomic.LoadInt32(&PlugPause) == 1 {
 		return nil
 	}
 	p.mu.Lock()
